@@ -2,7 +2,7 @@
 import json, os
 
 from . import extract
-from .rules import lock7, seq, mutex, ptr, lockword, qsbr, enc, exc
+from .rules import lock7, seq, mutex, ptr, lockword, qsbr, enc, exc, acc
 from . import olcrules
 
 VERIF = os.path.dirname(os.path.dirname(os.path.abspath(__file__)))
@@ -223,6 +223,19 @@ PROPERTIES['C08'] = {
     'decides': 'commit-point discipline of every operation; compensated accounting; limits-before-allocation; no lock outlives an exception',
     'does_not_decide': '"repeating the operation then succeeds" as behaviour (follows from unchanged state + C01); allocation failures inside deferred deallocation with more than one registered thread (outside the property\'s scope, listed as pruned in the evidence)',
     'assumptions': ['tree operations run with a single registered QSBR thread (C08 as stated): qsbr_per_thread::on_next_epoch_deallocate is treated as non-allocating when reached from a tree operation; it is analysed unpruned as an entry point of its own'],
+}
+
+PROPERTIES['C10'] = {
+    'level': 'other',
+    'configs': lambda tier: [B, D] if tier == 'quick' else [c for c in extract.all_configs() if '-stats-' in c],
+    'rules': [R(acc.acc1), R(acc.acc2), R(acc.acc4), R(acc.own1), R(exc.exc2)],
+    'explanation': 'The local generators of "shape, statistics and memory accounting are functions of the key set", for db and olc_db, both key kinds: '
+                   'ACC-1 the size-class constants form the chain 2-4 / 5-16 / 17-48 / 49-256, a node grows exactly when its count equals the capacity of ITS OWN class into the NEXT class, shrinks exactly at the minimum size of its own class into the PREVIOUS class, a two-child node collapses, splits create I4; '
+                   'ACC-2 the growth / shrink counters are written only by account_growing_inode / account_shrinking_inode and only incremented, and along every non-restart path of every helper instantiation the nodes created-and-published equal the growth accounted for (class by class), a dissolved node is accounted as shrunk exactly once, key_prefix_splits moves only in the inserts; '
+                   'ACC-4 clear() / destruction delete the whole subtree of a non-null root - every child slot of every node class (loop bounds: children_count for the dense classes, 48 resp. 256 slots for the indexed ones) - then reset root, memory use and the per-class counters; '
+                   'OWN-1 a node pointer released from its unique_ptr is published or re-owned on every path to every return (restart returns included), so nothing stays allocated and counted without being in the tree; EXC-2 allocation and accounting move together in factories and deleters.',
+    'decides': 'grow / shrink / collapse thresholds and target classes; counter discipline; completeness of subtree deletion; no leak of released nodes; allocation <-> accounting pairing',
+    'does_not_decide': 'history independence of the shape as a theorem over all operation histories (it decides the local rules that generate it)',
 }
 
 NOT_APPLICABLE = {}
